@@ -845,6 +845,9 @@ class Interp(Ops):
         if self.spec_mode:
             raise Unsupported("await in a specification")
         if not isinstance(v, VCoro):
+            if isinstance(v, VNoneT) and getattr(self, "last_builtin_awaitable", False):
+                self.last_builtin_awaitable = False
+                return VNone          # a library coroutine modelled by a builtin whose effect already happened
             if isinstance(v, VObj):
                 c = self.find_contract_for_method(v.cls, "__await__")
                 if c is None:
